@@ -368,10 +368,7 @@ func (e *Ev) specCall(name string, n *ast.CallExpr) (Term, bool) {
 		// lets a contract say that one call is always accompanied by another)
 		if lit, ok := n.Args[0].(*ast.BasicLit); ok {
 			key := strings.Trim(lit.Value, "\"`")
-			if t, ok := e.st.named["$calls:"+key]; ok {
-				return Term{S: t.S, Sort: sInt, T: types.Typ[types.Int], Signed: true}, true
-			}
-			return Term{S: "0", Sort: sInt, T: types.Typ[types.Int], Signed: true}, true
+			return Term{S: e.callCount(key), Sort: sInt, T: types.Typ[types.Int], Signed: true}, true
 		}
 		return e.errorf(n, "calls: needs a string literal"), true
 	case "oldElem":
